@@ -136,6 +136,10 @@ class WebSocketDataQueue:
                 raise
         return self._read_from_buffer()
 
+    def _resume_reading_unless_full(self) -> None:
+        if self._protocol._reading_paused and self._size < self._limit:
+            self._protocol.resume_reading()
+
     def _read_from_buffer(self) -> WSMessage:
         if self._buffer:
             data = self._get_buffer()
@@ -538,9 +542,17 @@ class WebSocketReader:
                     if (
                         self._max_fragments
                         and len(self._payload_fragments) > self._max_fragments
-                        and not self.queue._protocol._reading_paused
                     ):
-                        self.queue._protocol.pause_reading()
+                        # Merge the pieces (the cost is per piece) and hold
+                        # the reading back for one turn of the loop. No longer:
+                        # the rest of the frame is still to come, and nothing
+                        # else would resume the reading.
+                        self._payload_fragments = [b"".join(self._payload_fragments)]
+                        if not self.queue._protocol._reading_paused:
+                            self.queue._protocol.pause_reading()
+                            self.queue._loop.call_soon(
+                                self.queue._resume_reading_unless_full
+                            )
                     break
 
                 payload: bytes | bytearray
